@@ -103,6 +103,9 @@ class Network:
 	def to_wire(self, type_name, obj):
 		typedef = self.types[type_name]
 		kind = typedef['k']
+		if kind in ('int', 'bytes', 'enum') and type(obj).__name__ != type_name:
+			# a member holds a value of another class with the same bytes (typed equality of the SDK tells them apart)
+			raise TypeError(f'expected {type_name}, found {type(obj).__name__}')
 		if 'int' == kind:
 			return str(obj.value)
 		if 'bytes' == kind:
